@@ -151,6 +151,7 @@ func TestPropConvergence(t *testing.T) {
 			case 0:
 				if obj := stored[name]; obj != nil {
 					delete(stored, name)
+					delete(unapplicable, name)
 					if _, err := live.Delete(obj); err != nil {
 						t.Fatalf("delete failed: %v", err)
 					}
@@ -175,6 +176,20 @@ func TestPropConvergence(t *testing.T) {
 					}
 				}
 				bad := genObj(t, fmt.Sprintf("bad%d", i), name, free)
+				// the gateway keeps serving the last applied version while this one cannot be applied, so names that
+				// version owns are not given up by the failed one (otherwise another cluster could legitimately be
+				// refused them until the repair, which is not what is checked here); names may be added
+				if prev := stored[name]; prev != nil {
+					have := map[string]bool{}
+					for _, sn := range bad.Spec.SecureServing.ServerNames {
+						have[strings.ToLower(sn)] = true
+					}
+					for _, sn := range prev.Spec.SecureServing.ServerNames {
+						if !have[strings.ToLower(sn)] {
+							bad.Spec.SecureServing.ServerNames = append(bad.Spec.SecureServing.ServerNames, sn)
+						}
+					}
+				}
 				if rapid.Bool().Draw(t, "badCA") {
 					bad.Spec.SecureServing.ClientCAData = []byte("-----BEGIN CERTIFICATE-----\nAAAA\n-----END CERTIFICATE-----\n")
 				} else {
